@@ -1,4 +1,5 @@
 \* repaired model, two concurrent pushers, one listener and a free popper
+\* measured: 445 230 / 2 177 205, depth 32 (distinct / generated states)
 CONSTANTS NTx = 2 Kind <- KindS Sender <- SenderS Nonce <- NonceS NAccs = 1 Accs <- MCAccs StartEmpty = FALSE
   Max = 3 NPushers = 2 NConsumers = 1 Batch = 2
   MaxPush = 3 MaxBlocks = 0 MaxFail = 0 MaxCrash = 0 MaxClose = 0 MaxPops = 1 MaxExecErr = 1 MaxFatal = 1
